@@ -114,7 +114,7 @@ PROPS = {
                        "(14 methods, registry source), Label::{split_from, from_slice, len, ...}, LabelType::{parse, peek}, "
                        "ParsedName::parse_ref (terminates for every octet string by a lexicographic measure, never reads outside "
                        "[0, parser.len), Ok ==> name_wf: the recursive RFC 1035 walk predicate with strictly backward pointers and "
-                       "uncompressed length <= 255), ParsedName::{skip, parser, iter, parent, as_flat_slice}, the *unchecked* "
+                       "uncompressed length <= 255), ParsedName::skip (accepts exactly the label sequences of at most 255 octets ending in the root label or a pointer, stops right behind that, and is no stricter than parse_ref: lemma_skip_accepts_parsed_names -- the iterators and the dig-style printer skip what was parsed before), ParsedName::{parser, iter, parent, as_flat_slice}, the *unchecked* "
                        "ParsedNameIter::{get_label, next, next_back} (panic!(\"bad label\"), index and `len -= ..` underflow "
                        "unreachable under the validity parse_ref establishes; validity preserved, so results can be iterated again), "
                        "SliceLabelsIter::next (total on every slice and offset, and the iteration as a whole is finite: every label handed out "
@@ -692,7 +692,8 @@ PROPS = {
         ],
     },
     "C14": {
-        "level": "other",
+        "level": "proof",
+        "level_prefix": "Partial proof -- contracts discharged without bound on the mechanisms named below, not the whole statement (bounded stand-ins and what is left out are listed): ",
         "units": ["nsecval"],
         "kani": [],
         "extra_searches": [
@@ -723,7 +724,7 @@ PROPS = {
              "what": "Group::check_sig_cached under the crate's test clock: a verdict computed while a signature was valid (or not yet "
                      "valid) must not be served after its expiration (inception) time"},
         ],
-        "explanation": "decides two small clauses of the statement only. 'No upstream NSEC3 owner label makes the validator panic': "
+        "explanation": "Soundness of the denial-of-existence proofs (NSEC and NSEC3) and totality of the helpers that read upstream-controlled content; the signature chain itself is not under contract. 'No upstream NSEC3 owner label makes the validator panic': "
                        "validator::nsec::nsec3_label_to_hash (real text; core::str::from_utf8 and OwnerHash::from_str stubbed with "
                        "arbitrary results) has no reachable expect/unwrap/panic for any label. The interval predicates every "
                        "denial proof rests on: nsec_in_range == 'owner < target < next, the last NSEC of the zone covering "
@@ -744,16 +745,27 @@ PROPS = {
                        "within both iteration limits, unchanged, and only if the hash spelled by its owner label has the length of the next-owner hash; "
                        "above the bogus limit the verdict is Bogus, between the limits Insecure, never Secure. nsec_closest_encloser (real text, both suffix "
                        "loops): the name returned is the longest suffix of the target among the suffixes of the NSEC's owner and next name "
-                       "(lemma_closest_encloser_is_longest gives the declarative reading; a tie is the same name, so either comparison operator verifies).",
+                       "(lemma_closest_encloser_is_longest gives the declarative reading; a tie is the same name, so either comparison operator verifies). "
+                       "NSEC3 closest encloser proof (real text of the async functions nsec3_for_not_exists, nsec3_for_not_exists_no_ce and nsec3_for_nxdomain; edit kind DESUGAR_ASYNC: "
+                       "`async` and `.await` removed, the awaited hash cache is a prelude model -- the body is sequential over its own locals): 'does not exist, closest "
+                       "encloser ce' is concluded only if ce is one of the candidate names between the signer and the target, is the signer's apex or is matched by a trusted "
+                       "NSEC3 that allows it to be a closest encloser (no DNAME, NS only with SOA), and the candidate one label longer -- the next closer name -- is covered "
+                       "by a trusted NSEC3 (RFC 5155 8.3; predicate ce_proof, with no opt-out for the secure verdict); the invariant that carries it is 'the candidate closest "
+                       "encloser is the name handled last and is shown to exist' (seed C14-6, a stale candidate surviving a name the answer says nothing about, fails it); "
+                       "nsec3_for_not_exists_no_ce says 'does not exist' securely only if a trusted NSEC3 without opt-out covers the name; nsec3_for_nxdomain (RFC 5155 8.4) only "
+                       "with the closest encloser proof and such a cover for the wildcard at the closest encloser; the panic!()s for impossible validation states are unreachable. "
+                       "nsec3_label_to_hash and get_checked_nsec3 are functions of the group (spec function checked3), which is what lets the proofs name the NSEC3 records.",
         "not_covered": "Soundness of 'secure' beyond the 360 scenarios of the native search (signature chains to a trust anchor, NSEC/NSEC3 proofs), insecure-delegation handling, "
-                       "the NSEC3 proof finders (nsec3_for_nodata, nsec3_for_not_exists, nsec3_for_nxdomain: async functions over the hash cache, outside Verus; "
-                       "their building blocks get_checked_nsec3, nsec3_in_range, nsec3_label_to_hash are under contract), every other panic site of the "
+                       "nsec3_for_nodata and nsec3_for_nodata_wildcard (the NODATA side of the NSEC3 proofs), what other tasks do to the shared hash cache between the await points of the "
+                       "async functions (the cache is modelled as a function: the hash of a name under given parameters), every other panic site of the "
                        "validator (e.g. nsec3_hash(..).unwrap()), loops: async code over caches and crypto, out of reach. That every group of type NSEC "
                        "carries NSEC data (the precondition that makes get_checked_nsec's panic unreachable) is established where groups are built from "
                        "parsed records (group.rs, AllRecordData::parse) and is an assumption here.",
         "assumptions": [
             "names and NSEC3 hashes are compared through a total order (C04: name_cmp, octet order); modelled by an integer key",
-            "core::str::from_utf8 and OwnerHash::from_str (Base32hex, C18) return Ok or Err, never panic",
+            "core::str::from_utf8 and OwnerHash::from_str (Base32hex, C18) return Ok or Err, never panic, and are functions of their input",
+            "cached_nsec3_hash (moka cache + ring) returns the NSEC3 hash of the name under the record's parameters (hash_spec, uninterpreted; C13 compares the hash with an independent implementation)",
+            "VecDeque<Name> is modelled by new / push_front / consumption front first; DESUGAR_ASYNC treats an async body as sequential code over its locals",
             "ValidatedGroup is a model of its accessors (the real ones clone private fields); group.inv(): records of an NSEC group carry NSEC data",
             "axiom_suffixes / axiom_common_suffix: Name::iter_suffixes lists the suffixes of a name longest first down to the root, every name ends with the root, two suffixes of one name with the same label count are equal (facts about names, not proved in this unit)",
         ],
